@@ -7,6 +7,7 @@ import (
 	"encoding/hex"
 	"fmt"
 	"net"
+	"sync/atomic"
 
 	"github.com/coredhcp/coredhcp/handler"
 	"github.com/coredhcp/coredhcp/server"
@@ -27,7 +28,11 @@ type A4Case struct {
 	Action string `json:"action"`
 	YIAddr string `json:"yiaddr,omitempty"`
 	// Listener: bound (to the 6-byte-MAC interface) | unbound (request arrives on that interface) | unbound-other (arrives on another index)
+	//   | listen-zone (the listener is opened by the server's own listen4 for ListenIP%<that interface>: bound)
+	//   | listen-nozone (opened by listen4 for ListenIP without a zone: unbound, the request arrives on that interface)
 	Listener string `json:"listener"`
+	// ListenIP: "" / 0.0.0.0 (wildcard) | own (an address of this host that is not on the loopback) | 127.0.0.1 | 255.255.255.255
+	ListenIP string `json:"listenip,omitempty"`
 	CHAddr   string `json:"chaddr"`
 	// IfSel selects which of the interfaces with a 6-byte hardware address the listener is
 	// bound to / the request arrives on
@@ -90,6 +95,25 @@ func ExecA4Seq(s A4Seq) (res core.Result) {
 	return
 }
 
+var listenPort atomic.Int64
+
+// ownIPv4 is an IPv4 address of this host that is not on the loopback interface
+func ownIPv4() net.IP {
+	ifs, _ := net.Interfaces()
+	for _, i := range ifs {
+		if i.Flags&net.FlagLoopback != 0 || i.Flags&net.FlagUp == 0 {
+			continue
+		}
+		addrs, _ := i.Addrs()
+		for _, a := range addrs {
+			if n, ok := a.(*net.IPNet); ok && n.IP.To4() != nil {
+				return n.IP.To4()
+			}
+		}
+	}
+	return nil
+}
+
 var addrKinds = []string{"", "192.0.2.7", "10.10.10.200", "169.254.7.9", "255.255.255.255"}
 
 // GenA4 draws one row
@@ -112,6 +136,10 @@ func GenA4(t *rapid.T) A4Case {
 		if c.CIAddr != "" {
 			c.CIAddr = rnd("ci")
 		}
+	}
+	if rapid.IntRange(0, 9).Draw(t, "real-listen") == 0 {
+		c.Listener = rapid.SampledFrom([]string{"listen-zone", "listen-nozone", "listen-nozone"}).Draw(t, "listen-kind")
+		c.ListenIP = rapid.SampledFrom([]string{"", "own", "own", "127.0.0.1", "255.255.255.255"}).Draw(t, "listen-ip")
 	}
 	c.SrcPort = rapid.SampledFrom([]int{0, 0, 67, 68, 1024, 6767, 65535, 1}).Draw(t, "srcport")
 	c.SrcIP = rapid.SampledFrom([]string{"", "10.10.10.201", "192.0.2.7", "0.0.0.0", "169.254.1.1"}).Draw(t, "srcip")
@@ -184,6 +212,43 @@ func ExecA4(c A4Case) (res core.Result) {
 	recvIdx := l2.Index
 	wantIf := l2.Index
 	switch c.Listener {
+	case "listen-zone", "listen-nozone":
+		ip := net.IPv4zero
+		switch c.ListenIP {
+		case "own":
+			if ip = ownIPv4(); ip == nil {
+				res.Skipped = "no-own-ipv4-address"
+				return
+			}
+		case "", "0.0.0.0":
+		default:
+			ip = net.ParseIP(c.ListenIP).To4()
+		}
+		zone := ""
+		if c.Listener == "listen-zone" {
+			zone = l2.Name
+			if other != nil {
+				recvIdx = other.Index
+			}
+		}
+		var err error
+		var ifInfo bool
+		for try := 0; try < 8; try++ {
+			port := 20000 + int(listenPort.Add(1)*7919%40000)
+			cap4, ifInfo, err = server.NewListening4(&net.UDPAddr{IP: ip, Port: port, Zone: zone}, hs)
+			if err == nil {
+				break
+			}
+		}
+		if err != nil {
+			// the address cannot be listened on in this sandbox (not a property of the server)
+			res.Skipped = "cannot-listen"
+			return
+		}
+		if zone == "" && (c.ListenIP == "own" || c.ListenIP == "127.0.0.1") && !ifInfo {
+			res.Viol = core.Violate("C15/unbound-listener-without-interface-information", "listen address %v (no zone): the socket does not report the interface a datagram arrived on, so a reply that must leave on it cannot", ip)
+			return
+		}
 	case "bound":
 		cap4 = server.NewCapture4(hs, l2)
 		if other != nil {
